@@ -36,8 +36,17 @@ func (g *G) service(scope map[string]bool) {
 	}
 	if g.p.Errors && rapid.IntRange(0, 1).Draw(t, "svcerr") == 0 {
 		e := &m.ErrorDef{Name: "svc_failure", Temporary: rapid.Bool().Draw(t, "svcerrtemp")}
+		er := &m.ErrorResponse{Name: e.Name, Status: rapid.SampledFrom([]int{409, 429, 502}).Draw(t, "svcerrstatus"), Level: "service"}
+		if g.p.CustomErrors && rapid.IntRange(0, 2).Draw(t, "svcerrcustom") == 0 && !g.avoid("C07-openapi2-response-header-go-type-names") {
+			// a custom error type whose attribute travels in a renamed header of the
+			// inherited (service level) response
+			e.Temporary = false
+			e.Type = m.UserRef(g.customErrorType())
+			er.Headers = []m.Mapping{{Attr: "code", Wire: "X-Svc-Err-Code"}}
+			g.feat("service-level-error-response-header")
+		}
 		s.Errors = append(s.Errors, e)
-		s.ErrorResp = append(s.ErrorResp, &m.ErrorResponse{Name: e.Name, Status: rapid.SampledFrom([]int{409, 429, 502}).Draw(t, "svcerrstatus"), Level: "service"})
+		s.ErrorResp = append(s.ErrorResp, er)
 		g.feat("service-level-error")
 	}
 	if g.p.Security && len(g.d.Schemes) > 0 && rapid.IntRange(0, 2).Draw(t, "svcsec") == 0 {
